@@ -223,6 +223,7 @@ def classes_of(dumps):
     return out
 
 
+CRASH_TAGS = ("numberset_recursion", "imageset_complement_swapped", "intersection_union_distribution")
 NUMCLS = {"Reals", "Complexes", "Rationals", "Integers", "Naturals", "Naturals0"}
 UNION_OPS = ("set_union", "m_union")
 INTER_OPS = ("set_intersection", "m_intersection")
@@ -260,14 +261,18 @@ def recursion_risk(op, kd):
     return False
 
 
-def crash_tag(op, kd):
-    """name of the recorded finding whose process-killing recursion this operation may reach, or None"""
+def crash_tags(op, kd):
+    """names of the recorded findings whose process-killing recursion this operation may reach"""
+    out = []
+    cl = classes_of(kd)
     if op in COMPL_OPS and len(kd) == 2 and all(k is not None for k in kd):
         if all(any(x[0] == "ImageSet" for x in dump_walk(k)) for k in kd):
-            return "imageset_complement_swapped"     # ImageSet::set_complement(ImageSet) calls itself back
+            out.append("imageset_complement_swapped")     # ImageSet::set_complement(ImageSet) calls itself back
+    if "Intersection" in cl and (op in UNION_OPS or "Union" in cl or "Complement" in cl):
+        out.append("intersection_union_distribution")     # Intersection::set_union <-> set_intersection(Union)
     if recursion_risk(op, kd):
-        return "numberset_recursion"
-    return None
+        out.append("numberset_recursion")
+    return out
 
 
 def leaves_of(r, acc=None):
@@ -344,7 +349,7 @@ class C27(Check):
                    "whether a double belongs to Rationals / an integer-valued double to Integers is not judged",
                    "an exception declines the operation (and everything built from its result)",
                    "boundary / interior / closure are taken in R and judged at finite points only"]
-    tiers = {"quick": {"examples": 4000}, "thorough": {"examples": 400000}}
+    tiers = {"quick": {"examples": 3000}, "thorough": {"examples": 250000}}
 
     # ---------------------------------------------------------------- generation
     def enumerate(self, tier):
@@ -408,9 +413,9 @@ class C27(Check):
         heads = set(l[0] for l in lv)
         if "imageset" in heads:
             return True
-        if not (heads & set(setref.NUMSETS)):
-            return False
-        return nops >= 2 or "conditionset" in heads
+        if "conditionset" in heads:
+            return nops >= 2 or bool(heads & set(setref.NUMSETS))
+        return bool(heads & set(setref.NUMSETS)) and nops >= 2
 
     def build_carefully(self, nodes):
         """build the nodes one by one; before each operation the known process-killing / non-terminating
@@ -423,9 +428,9 @@ class C27(Check):
                 continue
             kd = [dumps[k] for k in nd["kids"]]
             if nd["op"] in ALL_OPS:
-                ct = crash_tag(nd["op"], kd)
-                if ct is not None and self.tag_active(ct):
-                    self.skip("known:" + ct)
+                ct = [t for t in crash_tags(nd["op"], kd) if self.tag_active(t)]
+                if ct:
+                    self.skip("known:" + ct[0])
                     dead.add(i)
                     continue
                 if self.tag_active("interval_integers_unbounded") and hang_risk(kd):
@@ -457,9 +462,7 @@ class C27(Check):
         root = n - 1
         ops = sum(1 for nd in nodes if nd["op"] in ALL_OPS)
         hung, dead = {}, set()
-        if self.may_hang(recipe) or ((self.tag_active("numberset_recursion")
-                                      or self.tag_active("imageset_complement_swapped"))
-                                     and self.may_recurse(recipe, ops)):
+        if self.may_hang(recipe) or (any(self.tag_active(t) for t in CRASH_TAGS) and self.may_recurse(recipe, ops)):
             self.cls("built_node_by_node")
             hung, dead = self.build_carefully(nodes)
             for i, kd in hung.items():
@@ -548,7 +551,7 @@ class C27(Check):
                 continue
             c = cvr[idx]
             if c == "x":
-                cls = excs.get(idx, "exception")
+                cls = excs.get(idx, next(iter(excs.values()), "exception"))
                 self.skip("contains:assert_seen" if cls == "VerifAssertFailure" else "contains:declined:" + cls)
             elif c == "?":
                 self.cls("contains:unevaluated")
@@ -624,7 +627,9 @@ class C27(Check):
                                        "belongs to" if exp else "does not belong to", name,
                                        "contains" if got else "does not contain"),
                                     {"node": recipe, "op": name, "operands": [d], "result": rd, "probe": str(v),
-                                     "expected": exp, "oracle": "topology", "boundaries": self.boundaries_of(d)})
+                                     "expected": exp, "oracle": "topology",
+                                     "boundaries": [b for b in [B(res[TOPO.index("boundary")])] if b]
+                                     + self.boundaries_of(d)})
 
     def boundaries_of(self, d):
         """boundary() of the set and of each of its Interval members, as returned (their element order is the
@@ -838,6 +843,15 @@ def m_imageset_complement_swapped(case, v):
     return c is not None and "ImageSet" in classes_of([c])
 
 
+def m_intersection_union_distribution(case, v):
+    """Intersection::set_union distributes the union over its members and set_intersection() distributes the
+    intersection over the resulting Unions, back and forth until the stack overflows"""
+    if not v.msg.startswith("driver crashed"):
+        return False
+    err = (_det(v).get("stderr") or "") + v.msg
+    return "Intersection::set_union" in err
+
+
 def m_numberset_recursion(case, v):
     """unbounded recursion between the number sets' / ImageSet's fallbacks and the free set_union/set_intersection"""
     if not v.msg.startswith("driver crashed"):
@@ -862,6 +876,7 @@ C27.matchers = {
     "interval_union_touching": m_interval_union_touching,
     "imageset_complement_swapped": m_imageset_complement_swapped,
     "numberset_recursion": m_numberset_recursion,
+    "intersection_union_distribution": m_intersection_union_distribution,
 }
 
 if __name__ == "__main__":
